@@ -16,6 +16,12 @@ EXTENDS LineTool, TraceKit
 VARIABLES l, cfg, unc
 
 Old(c) == c.tool \in {"GeoConvert", "GeodSolve"}
+\* the options of a GeoConvert / GeodSolve run that LineText.tla reads
+OldCfgOK(r) ==
+  /\ {"mode", "prec", "w", "c", "dms", "cd", "z", "zn", "l", "full"} \subseteq DOMAIN r /\ r.l \in BOOLEAN /\ r.full \in BOOLEAN
+  /\ r.cd \in {0, 35} /\ r.z \in 0..60 /\ r.zn \in {"", "n", "s"} /\ r.w \in BOOLEAN /\ r.dms \in {0, 100, 58}
+  /\ r.tool = "GeoConvert" => r.mode \in {"g", "d", ":", "u", "m"} /\ r.c \in BOOLEAN
+  /\ r.tool = "GeodSolve" => {"arc", "lat1", "lon1", "azi1"} \subseteq DOMAIN r /\ r.mode \in {"dir", "inv", "line"} /\ r.arc \in BOOLEAN
 Class(c, s) == IF c.tool = "GeoConvert" THEN GCLine(c, s) ELSE IF c.tool = "GeodSolve" THEN GSLine(c, s) ELSE TLLine(c, s)
 Content(c, s, out) == IF c.tool = "GeoConvert" THEN GCContent(c, s, out) ELSE IF c.tool = "GeodSolve" THEN GSContent(c, s, out)
                       ELSE TLContent(c, s, out)
@@ -35,7 +41,7 @@ Next ==
   /\ l <= NT
   /\ LET r == T[l] IN
      CASE r.e = "Reset" ->
-            LET ok == r.tool \in {"GeoConvert", "GeodSolve"} \/ KnownCfg(r) IN
+            LET ok == (r.tool \in {"GeoConvert", "GeodSolve"} /\ OldCfgOK(r)) \/ (r.tool \notin {"GeoConvert", "GeodSolve"} /\ KnownCfg(r)) IN
             /\ Require(ok, l, "tool-start", <<>>)
             /\ cfg' = (IF ok THEN r ELSE [tool |-> "none"])
             /\ status' = 0 /\ nin' = 0 /\ nout' = 0 /\ pcur' = 0 /\ pdone' = <<>> /\ unc' = FALSE
